@@ -21,6 +21,7 @@ import (
 
 	"github.com/ProtonMail/go-crypto/openpgp"
 	"github.com/ProtonMail/go-crypto/openpgp/armor"
+	"github.com/ProtonMail/go-crypto/openpgp/packet"
 	pkcs12 "software.sslmate.com/src/go-pkcs12"
 
 	"verif/relicx"
@@ -37,8 +38,9 @@ type material struct {
 	Root    *x509.Certificate
 	Other   *x509.Certificate // unrelated root
 	Signer  map[string]crypto.Signer
-	PGP     map[string]*openpgp.Entity // public entities rsaA, rsaB
-	PGPByID map[uint64]string
+	PGP     map[string]*openpgp.Entity   // public entities rsaA, rsaB
+	PGPByID map[uint64]string            // key id -> label: fixture key name, or <structure>#primary(..)/#subkeyN(..)
+	PGPPub  map[uint64]*packet.PublicKey // key id -> the key packet (primary keys and subkeys)
 }
 
 var M *material
@@ -128,7 +130,7 @@ func armored(raw []byte) []byte {
 
 // loadMaterial reads the fixtures; when dir is empty nothing is generated.
 func loadMaterial(dir string) *material {
-	m := &material{Dir: dir, Leaf: map[string]*x509.Certificate{}, Signer: map[string]crypto.Signer{}, PGP: map[string]*openpgp.Entity{}, PGPByID: map[uint64]string{}}
+	m := &material{Dir: dir, Leaf: map[string]*x509.Certificate{}, Signer: map[string]crypto.Signer{}, PGP: map[string]*openpgp.Entity{}, PGPByID: map[uint64]string{}, PGPPub: map[uint64]*packet.PublicKey{}}
 	for _, k := range privNames {
 		m.Leaf[k] = readCertFile(fx(k + ".leaf.crt"))[0]
 		m.Signer[k] = loadPrivate(k)
@@ -140,12 +142,16 @@ func loadMaterial(dir string) *material {
 		e, _ := loadPGPPublic(fx(k + ".pgp"))
 		m.PGP[k] = e
 		m.PGPByID[e.PrimaryKey.KeyId] = k
+		m.PGPPub[e.PrimaryKey.KeyId] = e.PrimaryKey
 	}
+	// a third RSA key (no certificate of its own is used here): subkey / token key of the OpenPGP structures
+	m.Signer["tsa"] = loadPrivate("tsa")
 	// further leaf certificates configurations refer to by name
 	m.Leaf["rsaA-selfsigned"] = readCertFile(fx("rsaA.selfsigned.crt"))[0]
 	if _, err := os.Stat(m.path("rsaA.same-modulus-exponent-3.crt")); err == nil {
 		m.Leaf["rsaA-e3"] = readCertFile(m.path("rsaA.same-modulus-exponent-3.crt"))[0]
 	}
+	m.loadPGPStructs()
 	return m
 }
 
@@ -209,6 +215,9 @@ func (m *material) generate() {
 	must(os.WriteFile(m.path("ring-arm1-AB.pgp"), armored(cat(rawA, rawB)), 0o644))
 	must(os.WriteFile(m.path("ring-arm2-BA.pgp"), cat(armored(rawB), armored(rawA)), 0o644))
 	must(os.WriteFile(m.path("ring-arm2-AB.pgp"), cat(armored(rawA), armored(rawB)), 0o644))
+	// OpenPGP certificates with subkeys
+	m.generatePGPStructs()
+	m.loadPGPStructs()
 	// the negated point of p256A: same X, other Y (private scalar n-d)
 	{
 		k := m.Signer["p256A"].(*ecdsa.PrivateKey)
